@@ -18,7 +18,7 @@ RULE = ("(1) small scope: n=4..5 rows, every target vector with both classes x r
         "permuted / repeated rows and permuted / wrong feature columns; separable and rising/declining runs (labels and "
         "fitted state change between iterations, both 'performs worse' exits); (3) edge stream: no targets, no decoys, "
         "unknown direction, nothing passes, single-row tables, two-row tables, max_iter=0; (4) Model.predict alone: stored "
-        "names vs table names, untrained model; (5) save_model/load_model round trip on a third of the cases. "
+        "names vs table names, untrained model; (5) save_model/load_model round trip on a third of the cases, to a fresh path, to a path that already holds another model, and to a path holding an unrelated leftover. "
         "distinct = distinct case; non-trivial = at least two calls of estimator.fit or an error exit")
 ASSUMPTIONS = [
     "feature values are integers stored as float64; scores handed to the model are those integers (order and ties exact)",
@@ -458,6 +458,16 @@ def _run_fit(c):
         if c.get("pickle"):
             with tempfile.TemporaryDirectory(prefix="c12_") as td:
                 path = Path(td) / "model.pkl"
+                # history: the path is not fresh — another model (or an unrelated leftover) was saved there before
+                hist = c["seed"] % 3
+                if hist == 1:
+                    import copy
+                    other = copy.deepcopy(m)
+                    other.estimator.g_ = int(m.estimator.g_) + 1
+                    other.features = list(reversed(m.features))
+                    save_model(other, path)
+                elif hist == 2:
+                    path.write_bytes(b"leftover, not a pickle\n")
                 save_model(m, path)
                 m2 = load_model(path)
                 q1 = call_impl(lambda: _ints(m2.predict(ds)))
